@@ -155,6 +155,66 @@ class WordExtractor:
             self._walk(c, tracked, flag, out, depth)
 
 
+def _lookup_refusals(ck, gtd):
+    """The converting lookup may answer `no tile` by itself only for coordinates outside the tile grid of their level
+    (x >= 2^z or y >= 2^z); every other coordinate must be handed to the source, as the stream path does.  A wider test
+    (e.g. a validity helper that also rejects a zoom level) makes lookups and streams/conversions disagree."""
+    lets = comp.lets_of(gtd)
+    cp = [b for p in gtd["params"] for b in ir.pat_binds(p) if "TileCoord3" in b["t"]]
+    al = ir.Aliases(gtd)
+    cph = {al.canon(b["hid"]) for b in cp}
+
+    def is_grid_size(e):
+        e = ir.strip(e)
+        while e is not None and e.get("k") == "cast":
+            e = ir.strip(e["e"])
+        if e is not None and e.get("k") == "path" and e.get("r") == "local" and e["hid"] in lets:
+            return is_grid_size(lets[e["hid"]])
+        if e is not None and e.get("k") == "mcall" and e.get("name") == "pow" and ir.const_eval(e["recv"], {}) == 2:
+            return comp.deep_place(e["a"][0], lets).endswith(".z") and al.hid(_root(e["a"][0])) in cph
+        if e is not None and e.get("k") == "bin" and e.get("op") == "<<" and ir.const_eval(e["l"], {}) == 1:
+            return comp.deep_place(e["r"], lets).endswith(".z") and al.hid(_root(e["r"])) in cph
+        return False
+
+    def _root(e):
+        e = ir.strip(e)
+        while e is not None and e.get("k") in ("field", "cast", "mcall", "call"):
+            if e.get("k") == "call":
+                e = ir.strip(e["a"][0]) if e.get("a") else None
+            else:
+                e = ir.strip(e["e"] if e.get("k") in ("field", "cast") else e["recv"])
+        return e
+
+    def disjuncts(c):
+        c = ir.unparen(c)
+        if c.get("k") == "bin" and c.get("op") == "||":
+            return disjuncts(c["l"]) + disjuncts(c["r"])
+        return [c]
+    bad = []
+    n_ref = 0
+    for n, parents, _ in ir.walk(gtd["body"]):
+        is_none_ret = n.get("k") == "ret" and ir.contains(n, lambda y: (y.get("q") or "").endswith("Option::None::{Ctor#0}"))
+        if not is_none_ret:
+            continue
+        n_ref += 1
+        guards = [p for p in parents if p.get("k") == "if"]
+        if len(guards) != 1 or not ir.contains(guards[0]["then"], lambda y: y is n):
+            bad.append("return Ok(None) at %s is not under a single grid-bound test" % ir.loc(n))
+            continue
+        for d in disjuncts(guards[0]["c"]):
+            ok = False
+            if d.get("k") == "bin" and d.get("op") in (">=", ">", "<", "<="):
+                l, r, op = d["l"], d["r"], d["op"]
+                if op in ("<", "<="):
+                    l, r, op = r, l, {"<": ">", "<=": ">="}[op]
+                lp = comp.deep_place(l, lets)
+                ok = op == ">=" and lp.endswith((".x", ".y", "x)", "y)")) and al.hid(_root(l)) in cph and is_grid_size(r)
+            if not ok:
+                bad.append("condition `%s` at %s" % (d.get("src") or ir.place_str(d), ir.loc(d)))
+    ck.check(not bad, "R-D4", gtd["q"] + "|refusals", "the lookup answers `no tile` on its own only for coordinates outside the 2^z grid (%d early return(s))" % n_ref,
+             "the lookup refuses coordinates for a reason other than x >= 2^z || y >= 2^z: %s — lookups (serve) and streams (convert) then disagree" % bad, ir.loc(gtd))
+
+
 def rules(ck, P):
     comp.levels_rule(ck, P, "R-SELECT", ("set_zoom_min", "set_zoom_max", "intersect_geo_bbox", "intersect", "add_border"))
     conv = [a for q, a in P.adts.items() if q.endswith("::TilesConvertReader")]
@@ -197,6 +257,7 @@ def rules(ck, P):
         cparam = [b["hid"] for p in gtd["params"] for b in ir.pat_binds(p) if "TileCoord3" in b["t"]]
         ck.check(we.origin(ch) in cparam, "R-D4", gtd["q"] + "|coord-origin",
                  "the transformed coordinate is a copy of the requested coordinate", "the looked-up coordinate is not derived from the request", ir.loc(gtd))
+    _lookup_refusals(ck, gtd)
     we = WordExtractor(P, gbs)
     inner = [n for n in ir.walk_nodes(gbs["body"]) if n.get("k") == "mcall" and (n.get("q") or "").endswith("TilesReaderTrait::get_bbox_tile_stream")]
     if ck.anchor("R-D4", "inner get_bbox_tile_stream call", inner, 1):
